@@ -135,9 +135,12 @@ func (r *crashRecording) isRootWrite(i int) bool {
 // checkImage re-opens image (i,j) and compares it with the last completed
 // flush; cont (may be empty) is then run on the recovered store with the
 // durability oracle on, followed by one re-crash of the continuation's last flush.
-func (r *crashRecording) checkImage(base Case, i, j int, cont []Op) (*Violation, map[string]int) {
+func (r *crashRecording) checkImage(base Case, i, j int, cont []Op, junk []byte) (*Violation, map[string]int) {
 	img := r.imageAt(i, j)
 	exp := r.expectedAt(i, j)
+	if len(junk) > 0 {
+		img = append(append([]byte{}, img...), junk...)
+	}
 	c := Case{Cfg: base.Cfg, Ops: cont}
 	c.Cfg.Profile = "C03-crash"
 	opts := RunOpts{Prop: "C03", Probe: true, InitImage: img, InitDurable: exp, KeepData: len(cont) > 0}
@@ -177,8 +180,11 @@ func (r *crashRecording) checkImage(base Case, i, j int, cont []Op) (*Violation,
 		v = v2
 	}
 	if v != nil {
-		v.Msg = fmt.Sprintf("crash image: writes 1..%d complete, %d of %d bytes of write %d (offset %d) applied, image %d bytes; %d completed flush(es) recoverable: %s",
-			i, j, r.lenOf(i), i+1, r.offOf(i), len(img), len(exp), v.Msg)
+		v.Msg = fmt.Sprintf("crash image: writes 1..%d complete, %d of %d bytes of write %d (offset %d) applied, %d junk bytes after the cut, image %d bytes; %d completed flush(es) recoverable: %s",
+			i, j, r.lenOf(i), i+1, r.offOf(i), len(junk), len(img), len(exp), v.Msg)
+		if len(junk) > 0 {
+			v.Sig = "junk:" + v.Sig
+		}
 	}
 	return v, ev
 }
@@ -195,6 +201,42 @@ func (r *crashRecording) offOf(i int) int64 {
 		return r.writes[i].Off
 	}
 	return -1
+}
+
+// junkFor builds the junk that is left after the cut: kind 0 random bytes, 1 a
+// marker fragment, 2 a truncated copy of a real root record of this file, 3 a
+// complete but relocated copy of a real root record (its recorded offset
+// cannot match where it lies now), 4 zero bytes.  ok is false when the junk
+// would be a complete self-consistent root record for this image.
+func (r *crashRecording) junkFor(kind, pick int, raw []byte, imgLen int) (junk []byte, ok bool) {
+	var roots []IORec
+	for i := range r.writes {
+		if r.isRootWrite(i) {
+			roots = append(roots, r.writes[i])
+		}
+	}
+	switch kind % 5 {
+	case 1:
+		return hostileVals[pick%len(hostileVals)], true
+	case 2:
+		if len(roots) == 0 {
+			return raw, len(raw) > 0
+		}
+		d := roots[pick%len(roots)].Data
+		return d[:len(d)-1-pick%(len(d)/2)], true
+	case 3:
+		if len(roots) == 0 {
+			return raw, len(raw) > 0
+		}
+		rw := roots[pick%len(roots)]
+		if int64(imgLen) == rw.Off {
+			return nil, false // would land exactly where it was written: a real, complete record
+		}
+		return rw.Data, true
+	case 4:
+		return make([]byte, 1+pick%64), true
+	}
+	return raw, len(raw) > 0
 }
 
 // RunCrashCase replays one saved crash case: Cfg.Extra = [i, j], the
@@ -219,7 +261,8 @@ func RunCrashCase(c Case) *Violation {
 	if len(c.Cfg.Workers) > 0 {
 		cont = c.Cfg.Workers[0]
 	}
-	v, _ = rec.checkImage(hist, i, j, cont)
+	hist.Cfg.Junk = nil
+	v, _ = rec.checkImage(hist, i, j, cont, c.Cfg.Junk)
 	return v
 }
 
